@@ -92,13 +92,20 @@ func (wheel *Wheel) fetchWheelData(interval time.Duration) *wheelData {
 		index--
 	}
 
-	verifYield(3, unsafe.Pointer(&wheel.position))
-	var position = int(atomic.LoadInt64(&wheel.position))
-	index = (position + index) % wheel.bucketsSize
-	// 由于缺少lock控制，这里有可能取到已经被关闭的chan，但这没有关系，已经关闭的说明时刻已经过去了，立即返回就好
-	verifYield(4, unsafe.Pointer(&wheel.channels[index]))
-	var data = (*wheelData)(atomic.LoadPointer(&wheel.channels[index]))
-	return data
+	for {
+		verifYield(3, unsafe.Pointer(&wheel.position))
+		var position = int(atomic.LoadInt64(&wheel.position))
+		var slot = (position + index) % wheel.bucketsSize
+		// 由于缺少lock控制，这里有可能取到已经被关闭的chan，但这没有关系，已经关闭的说明时刻已经过去了，立即返回就好
+		verifYield(4, unsafe.Pointer(&wheel.channels[slot]))
+		var data = (*wheelData)(atomic.LoadPointer(&wheel.channels[slot]))
+
+		// 如果两次读取之间发生了tick, 则取到的chan可能属于下一圈, 需要重试
+		verifYield(3, unsafe.Pointer(&wheel.position))
+		if position == int(atomic.LoadInt64(&wheel.position)) {
+			return data
+		}
+	}
 }
 
 func (wheel *Wheel) goLoop(later Later) {
@@ -118,17 +125,14 @@ func (wheel *Wheel) goLoop(later Later) {
 func (wheel *Wheel) onTicker() {
 	verifYield(3, unsafe.Pointer(&wheel.position))
 	var position = int(atomic.LoadInt64(&wheel.position))
-	verifYield(4, unsafe.Pointer(&wheel.channels[position]))
-	var lastItem = (*wheelData)(atomic.LoadPointer(&wheel.channels[position]))
+
+	// 先修改position, 再替换chan: 这样读到旧position的请求只会取到尚未被替换的chan (相当于请求发生在本次tick之前)
+	verifYield(6, unsafe.Pointer(&wheel.position))
+	atomic.StoreInt64(&wheel.position, int64((position+1)%wheel.bucketsSize))
 
 	// 修改chan
 	verifYield(5, unsafe.Pointer(&wheel.channels[position]))
-	atomic.StorePointer(&wheel.channels[position], unsafe.Pointer(&wheelData{c: make(chan struct{})}))
-
-	// 修改position
-	position = (position + 1) % wheel.bucketsSize
-	verifYield(6, unsafe.Pointer(&wheel.position))
-	atomic.StoreInt64(&wheel.position, int64(position))
+	var lastItem = (*wheelData)(atomic.SwapPointer(&wheel.channels[position], unsafe.Pointer(&wheelData{c: make(chan struct{})})))
 
 	// 关闭chan
 	verifYield(7, unsafe.Pointer(lastItem))
